@@ -9,7 +9,7 @@ PROP = {
             "transform_point = linear*p + translation, transform_vector = the same map with zero translation, A*B entries, (A*B)*v = A*(B*v); exact on integers in [-16,16], within k*u*sum|terms| on reals. "
             "A case is non-trivial when all entries of A are pairwise distinct (any permutation is visible) or a NaN / -0 entry is present; distinct = distinct hash of (type, backend, words).",
     "builds": {
-        "quick": [B("stable"), B("nightly", 0.25, False)],
+        "quick": [B("stable"), B("fma", 0.25), B("nightly", 0.25, False)],
         "thorough": [B("stable"), B("fma", 0.5), B("nightly", 0.5, False)],
     },
     "volume": {"quick": 6},
